@@ -1,6 +1,15 @@
 """Property table: which rules make up each property's check (DESIGN.md §4)."""
 from .core import Collector
 from . import ordering as O
+from . import progress as P
+from . import totality as T
+from . import protect as R
+from . import ledger as L
+from . import isolation as I
+from . import nodelist as N
+from . import api as A
+from . import kinds as K
+from . import typelevel as TL
 
 
 def _run(rules):
@@ -22,7 +31,7 @@ def prop(pid, title, rules, explanation, not_decided, **kw):
 
 
 prop('C07', 'publication / race freedom through the container',
-     [O.rule_ord_with_floors, O.rule_acq_use, O.rule_rmw_only, O.rule_mp, O.rule_pay_cas],
+     [O.rule_ord_with_floors, O.rule_acq_use, O.rule_rmw_only, O.rule_mp, O.rule_pay_cas, R.rule_cover_all],
      'Decides necessary structural clauses: every atomic site with a protocol role requests at least the floor '
      'ordering of that role (ORD), every pointer read from the cell is acquired before it becomes an owned value '
      '(ACQ-USE), the cell is one atomic variable written only by single RMWs (RMW-ONLY), the hand-over envelope is '
@@ -30,7 +39,6 @@ prop('C07', 'publication / race freedom through the container',
      'by the pointer (PAY-CAS).',
      'Sufficiency of these orderings for data-race freedom under C11 for every interleaving is NOT decided.')
 
-from . import progress as P
 
 prop('C08', 'reads are wait-free',
      [P.rule_loop_free],
@@ -49,7 +57,6 @@ prop('C09', 'writers and guards never block',
      'A numeric step bound for CAS loops under contention is not decided (lock-free, not wait-free); spurious '
      'compare_exchange_weak failures are trusted to be finite.')
 
-from . import totality as T
 
 
 def _c13(fx, col):
@@ -73,7 +80,6 @@ prop('C13', 'operations are total',
      'WITH-TAKE, INDEX-MOD, ENVELOPE-PROVENANCE, COOLDOWN-OWNED, TXN-CLOSED, TAG-TABLE, INUSE-FSM; hangs are excluded by the loop classes of C09.',
      'Panics inside std leaves other than the listed entry points; that all other guarantees continue to hold after the wrap beyond re-running every rule on that path.')
 
-from . import protect as R
 
 _ORD_C01 = {'cell-rmw', 'cell-confirm-load', 'debt-fast-publish', 'control-intent', 'head-traverse-load', 'head-publish'}
 
@@ -94,7 +100,6 @@ prop('C01', 'no use-after-free',
      'envelopes are never freed (NEVER-FREED); slots are claimed only when empty (CLAIM-EMPTY); the SeqCst rows of ORD.',
      'That these obligations suffice under every interleaving and C11 execution (stale relaxed reads, address reuse) is NOT decided.')
 
-from . import ledger as L
 
 prop('C02', 'exact ownership accounting',
      [L.rule_ledger, L.rule_bypass, R.rule_pay_used, O.rule_pay_cas, R.rule_slot_closed],
@@ -148,7 +153,6 @@ prop('C18', 'panics in user code leave the container consistent',
      'resource types have Drop impls.',
      'That the container still holds a legitimately stored value as a run-time fact; only that no write to the cell or a slot is left half-done when user code runs.')
 
-from . import isolation as I
 
 prop('C12', 'containers are isolated',
      [I.rule_addr_guard, I.rule_addr_before_gen, I.rule_own_storage, O.rule_pay_cas, O.rule_mp],
@@ -160,7 +164,6 @@ prop('C12', 'containers are isolated',
      '(PAY-CAS); each hand-over envelope has one owner after the exchange (MP, their-space-before-exchange).',
      'Behaviour of interleavings across containers is NOT decided.')
 
-from . import nodelist as N
 
 _ORD_C11 = {'inuse-claim', 'inuse-cooldown', 'inuse-cooldown-check', 'writers-enter', 'writers-leave', 'head-traverse-load', 'head-publish'}
 
@@ -187,8 +190,6 @@ prop('C11', 'thread churn is safe and bounded',
      'is prepend-only with next written once before publication (NEXT-ONCE).',
      'The numeric bound (at most peak-threads nodes) and exclusivity of a node under all interleavings are NOT decided; the rules are the code-shape reasons for both.')
 
-from . import api as A
-from . import kinds as K
 
 _ORD_SEQ = {'cell-rmw', 'cell-confirm-load', 'debt-fast-publish', 'control-intent', 'control-confirm', 'head-traverse-load', 'head-publish'}
 
@@ -209,7 +210,7 @@ PROPERTIES['C01']['run'] = _run([R.rule_publish_confirm, R.rule_intent_first, R.
 PROPERTIES['C02']['run'] = _run([L.rule_ledger, L.rule_bypass, R.rule_pay_used, O.rule_pay_cas, R.rule_slot_closed, R.rule_cover_all])
 
 prop('C03', 'loads are linearizable (provenance clause)',
-     [R.rule_publish_confirm, R.rule_intent_first, I.rule_addr_guard, I.rule_own_storage, R.rule_pay_before_release, A.rule_no_stash, _ord_seq],
+     [R.rule_publish_confirm, R.rule_intent_first, I.rule_addr_guard, I.rule_addr_before_gen, I.rule_own_storage, R.rule_pay_before_release, A.rule_no_stash, _ord_seq],
      'Decides the clause "what a load returns was read from THIS cell INSIDE the call, after the reader made itself visible, '
      'or was produced for it by a helper that validated cell and transaction": provenance of the pointer in every returned '
      'protection (PUBLISH-CONFIRM, INTENT-FIRST), helper validation (ADDR-GUARD, GEN-REVALIDATE, OWN-STORAGE), the helper\'s '
@@ -218,7 +219,7 @@ prop('C03', 'loads are linearizable (provenance clause)',
      'Linearizability, real-time order and per-thread monotonicity over histories are NOT decided (properties of executions).')
 
 prop('C04', 'writes totally ordered, each old value handed back once',
-     [O.rule_rmw_only, A.rule_store_is_swap, L.rule_ledger, L.rule_bypass, R.rule_pay_before_release],
+     [O.rule_rmw_only, A.rule_store_is_swap, L.rule_ledger, L.rule_bypass, R.rule_pay_before_release, A.rule_cas_shape],
      'Decides: the container is exactly one atomic variable and every mutation is a single RMW on it, so the write order is '
      'that variable\'s modification order (RMW-ONLY); store = drop(swap) (STORE-IS-SWAP); one count leaves the cell per '
      'successful write and per destruction on every path (LEDGER for swap / compare_and_swap / into_inner / Drop), into_inner '
@@ -285,7 +286,6 @@ prop('C20', 'serde support is transparent',
      'Equality of token streams for all values (with the shape fixed the container\'s stream is the pointee\'s stream by construction).',
      configs=['A', 'S'])
 
-from . import typelevel as TL
 
 prop('C19', 'thread-safety markers follow the pointee',
      [TL.rule_auto_trait_matrix, TL.rule_no_unsafe_auto_impl, TL.rule_witnesses],
